@@ -317,7 +317,7 @@ class BatchWorld(World):
               "background_interleaved", "compressed", "fragmented", "instance_target", "session_class", "percall_class",
               "peer_client", "reconnected", "session_state_compared", "class_instances_compared", "slow_batch",
               "hangup_after_oneway", "abandoned_slow_oneway", "client_gave_up", "serializer_lines",
-              "exc_builtin", "exc_pyro", "exc_user", "exc_name_collision", "stopiteration_in_batch", "consume_for_loop"]
+              "exc_builtin", "exc_pyro", "exc_user", "exc_name_collision", "stopiteration_in_batch", "consume_for_loop", "rst_after_oneway"]
     RULE = ("plan = (target: registered instances / session-mode classes / percall-mode classes; server type, serializer, "
             "compression, MSG_WAITALL, fragmentation, batch mode normal/one-way, 0-8 calls over add/push/put(kwargs)/get/div/check/"
             "hidden/_secret/nosuch with arguments from the lossless core, optional second batch of 0-4 calls on the same BatchProxy; "
@@ -371,6 +371,10 @@ class BatchWorld(World):
                 # the client releases its proxy right after submitting a one-way batch (fire and forget)
                 "hangup": rng.random() < (0.75 if slow else 0.4), "impatient": None, "ser_lines": False,
                 "commtimeout": rng.choice([0, 0, 0, 90.0]), "consume": rng.choice(["next", "for"])}
+        if plan["hangup"] and rng.random() < 0.4:
+            # abortive variant: the client's socket is reset right after the one-way batch(es); queued bytes stay readable
+            plan["hangup"] = "rst"
+            plan["net"]["rst_discards_rx"] = False
         if slow and rng.random() < 0.5:
             plan["mode"] = "oneway"
         if servertype == "thread" and rng.random() < (0.6 if serializer == "msgpack" else 0.25):
@@ -416,6 +420,8 @@ class BatchWorld(World):
                 yield dict(plan, peer=dict(pe, start=0))
         if plan.get("start"):
             yield dict(plan, start=0)
+        if plan.get("hangup") == "rst":
+            yield dict(plan, hangup=True)
         if plan.get("hangup"):
             yield dict(plan, hangup=False)
         if plan.get("commtimeout"):
@@ -575,10 +581,21 @@ class BatchWorld(World):
                 if mode == "oneway":
                     rec["ret_none"] = r is None
                     rec["ret"] = type(r).__name__
-                    if plan.get("hangup") and (kind != "session" or bi == len(batches) - 1):
+                    hang = plan.get("hangup")
+                    if hang == "rst":
+                        if ctx.net.rst_discards_rx:
+                            hang = True     # a reset that discards what is queued: nothing could be demanded; close orderly instead
+                        elif bi + 1 < len(batches) and batches[bi + 1][1] == "oneway":
+                            hang = False    # pipeline the next one-way batch behind this one, the reset comes after the last
+                    if hang and (kind != "session" or bi == len(batches) - 1):
                         # fire and forget: the connection is closed as soon as the request is on the wire (a session
                         # instance lives and dies with its connection, so there only after the generation's last batch)
                         rec["hung_up"] = True
+                        if hang == "rst" and p._pyroConnection is not None:
+                            # abortive close (client killed, SO_LINGER 0): the server's socket is reset, getpeername() fails
+                            # there, but the request it already holds stays readable and must be executed all the same
+                            rec["rst"] = True
+                            p._pyroConnection.sock.rst()
                         p._pyroRelease()
                         # whatever this client does next travels on a NEW connection, which the server may well serve before
                         # the abandoned one: wait until the one-way batch is through
@@ -896,6 +913,8 @@ class BatchWorld(World):
                 ctx.probe("kwargs")
             if sum(c["a"][0] for c in calls[:(k + 1) if fail else n] if c["m"] == "work") > 1.0:
                 ctx.probe("slow_batch")
+            if ra.get("rst"):
+                ctx.probe("rst_after_oneway")
             if ra.get("hung_up"):
                 ctx.probe("hangup_after_oneway")
                 acc, m = 0.0, (k + 1) if fail else n
